@@ -74,7 +74,7 @@ def rules(t):
             if op in ("Eq", "Ne") and t.edge_dominates(e, go_edge, c.bb) and c.bb not in (e.reachable_from([skip_edge[1]]) - e.reachable_from([go_edge[1]])): ok = True
         if not ok: r.bad("except", c, "broadcast_message_except does not skip exactly `id == except_id`")
     out.append(r)
-    r = RuleResult("C11.d", "channels are kept apart: packets dispatched by kind and own channel id, channel objects built and registered under their configured id (shared with C03.a1/a2)", floor=17)
+    r = RuleResult("C11.d", "channels are kept apart: packets dispatched by kind and own channel id, channel objects built and registered under their configured id (shared with C03.a1/a2)", floor=14)
     import rules.C03 as C03
     for rr in C03._rules_c03(t) if hasattr(C03, "_rules_c03") else C03.rules(t):
         if rr.id in ("C03.a1", "C03.a2"):
